@@ -26,14 +26,24 @@ def _label(kind, text, indent="      "):
     return '%s<label kind="%s">%s</label>\n' % (indent, kind, _txt(text))
 
 
-def render_xml(m, header=True, cdata=False, rate_first=False):
-    """cdata: write every text block as a CDATA section; rate_first: write a location's exponentialrate label before its invariant label"""
-    global _CDATA
+def render_xml(m, header=True, cdata=False, rate_first=False, comments=0):
+    """cdata: write every text block as a CDATA section; rate_first: write a location's exponentialrate label before its invariant label;
+    comments: every location and transition begins with a comments label - 1: an empty element `<label kind="comments"/>`, 2: one with text"""
+    global _CDATA, _COMMENTS
     _CDATA = cdata
+    _COMMENTS = comments
     try:
         return _render_xml(m, header, rate_first)
     finally:
         _CDATA = False
+        _COMMENTS = 0
+
+
+_COMMENTS = 0
+
+
+def _comments():
+    return {0: "", 1: '      <label kind="comments"/>\n', 2: '      <label kind="comments">a note, not a text of the model</label>\n'}[_COMMENTS]
 
 
 def _render_xml(m, header, rate_first):
@@ -54,6 +64,7 @@ def _render_xml(m, header, rate_first):
             out.append('    <location id="%s">\n' % l["id"])
             if l.get("name") is not None:
                 out.append("      <name>%s</name>\n" % escape(l["name"]))
+            out.append(_comments())
             if rate_first:
                 out.append(_label("exponentialrate", l.get("rate")))
                 out.append(_label("invariant", l.get("inv")))
@@ -75,6 +86,7 @@ def _render_xml(m, header, rate_first):
                 attrs = ' controllable="%s"' % ("true" if e["controllable"] else "false")
             out.append("    <transition%s>\n" % attrs)
             out.append('      <source ref="%s"/>\n      <target ref="%s"/>\n' % (e["src"], e["dst"]))
+            out.append(_comments())
             for kind, key in (("select", "select"), ("guard", "guard"), ("synchronisation", "sync"),
                               ("assignment", "assign"), ("probability", "prob")):
                 out.append(_label(kind, e.get(key)))
